@@ -7,6 +7,7 @@ package main
 
 import (
 	"fmt"
+	"runtime/debug"
 	"sort"
 	"strings"
 	"sync"
@@ -94,6 +95,11 @@ func runChurn(c *rig.Ctx, cs Case, record bool, inf *info) bool {
 		go func(g int) {
 			defer wg.Done()
 			msg, panicked := rig.Recover(func() {
+				defer func() {
+					if r := recover(); r != nil {
+						panic(fmt.Sprintf("%v\n%s", r, debug.Stack()))
+					}
+				}()
 				for i := 0; ; i++ {
 					select {
 					case <-stop:
@@ -141,7 +147,11 @@ func runChurn(c *rig.Ctx, cs Case, record bool, inf *info) bool {
 		return fail("judge", "c14.hang", "pickers racing with Syncs did not stop within 60 s", nil)
 	}
 	if panicMsg != "" {
-		return fail("judge", "c14.panic", "a picker racing with Syncs panicked: "+panicMsg, nil)
+		if strings.Contains(panicMsg, "UnreadyReason") {
+			// finding C03-unready-reason-race: Pop() formats an endpoint's reason / message while a probe writes them
+			return fail("judge", "c14.unready-reason-race", "a pick racing with health probes panicked inside EndpointInfo.UnreadyReason (status strings read without the status lock): "+firstLines(panicMsg, 14), nil)
+		}
+		return fail("judge", "c14.panic", "a picker racing with Syncs panicked: "+firstLines(panicMsg, 30), nil)
 	}
 	if syncErr != "" {
 		return fail("diff", "c14.sync-error", "a Sync failed: "+syncErr, nil)
@@ -275,6 +285,14 @@ func runChurn(c *rig.Ctx, cs Case, record bool, inf *info) bool {
 		}
 	}
 	return true
+}
+
+func firstLines(s string, n int) string {
+	l := strings.Split(s, "\n")
+	if len(l) > n {
+		l = l[:n]
+	}
+	return strings.Join(l, " / ")
 }
 
 func unhexL(l []string) []string {
